@@ -67,9 +67,13 @@ def init_contig_rules(rep, f):
                 rep.ok("R-SOLOUT-INIT", key, "one pre-loop callback with xold == x == x0, y == y0, interpolant None")
         # contiguity + interpolant segment, per path variant
         bad = []
+        n_with_cb = 0
         for tag, sx, hk in variants:
             recs = [r for r in hk.interp_calls if r["in_main"]]
             souts = [r for r in hk.solout_calls if r["in_main"]]
+            if len(souts) == 0:
+                continue    # no accepted step is feasible on this path variant
+            n_with_cb += 1
             if len(souts) != 1:
                 bad.append((tag, "expected one per-step callback site, found %d" % len(souts), None, "sites"))
                 continue
@@ -87,6 +91,8 @@ def init_contig_rules(rep, f):
                     bad.append((tag, "interpolant covers [%r, %r] but the step ends at x = %r" % (r["xold"], r["xold"] + r["h"], s["x"]), r["node"], "interp-h"))
                 if r["xold"] != s["xold"]:
                     bad.append((tag, "interpolant xold %r != callback xold %r" % (r["xold"], s["xold"]), r["node"], "interp-xold"))
+        if n_with_cb == 0:
+            bad.append(("all", "no path variant reaches the per-step callback", None, "sites"))
         seen = set()
         for tag, msg, node, what in bad:
             rule = "R-INTERP-H" if what.startswith("interp") else "R-SOLOUT-CONTIG"
